@@ -241,6 +241,14 @@ def handle (line : String) : String :=
     -- the IO's value: v, or v+1 through the FlatMap chain; where it is observed and how long it takes do not matter
     let v := (kv ps "v").toNat?.getD 0
     match doNotation (if kv ps "flat" == "1" then v + 1 else v) with | some r => s!"ok {r}" | none => "hang"
+  | ["donottarget", p] =>
+    -- the DoNotation coroutine is an ordinary started target: its single YieldRef(v+100) takes the one request v
+    let v := (kv [p] "v").toNat?.getD 0
+    let script : Nat → List Nat := fun i => if i = 0 then [v] else []
+    let s := runRR (fun _ => v + 100) 5 1 24 (init script none)
+    (match doNotation ((xsOf 0 s.served).headD 0), (s.got 0).head? with
+      | some r, some y => s!"ok ret={r} y={y} started={b01 ((flagsTrace.getD 1 ⟨false, false⟩).started)}"
+      | _, _ => "hang")
   | ["donotyf", p] => donotYf ((kv [p] "v").toNat?.getD 0)
   | ["flags"] => " ".intercalate (flagsTrace.map (fun f => b01 f.started ++ " " ++ b01 f.done))
   | _ => "bad-line"
